@@ -11,6 +11,11 @@ Lists are comma separated without blanks, `-` is the empty list (rank 0).
 * `write <ty> <dims> <data>`          — `ty` ∈ i64 | str; the bytes of `Writable` (blank → `_`, newline → `/`)
 * `debug <dims> <data>`               — `{:?}` of an `i64` tensor
 * `rt   <ty> <chunk> <dims> <data>`   — write, read back through a `Reader` fed `chunk` bytes at a time
+* `h <D> ; op ; op ; …`               — a history over tensor variables 0..3 of rank `D` (`Tensor<i64, D>`), ops:
+    `mk s <dims> <start>` (`from_vec(dims, start..)`), `cl s r` (`s = r.clone()`), `cf s r` (`s.clone_from(&r)`),
+    `eq s r`, `dims s`, `dim s i`, `get s <idx>` (`get_index`), `rd s <idx>` (`t[idx]`), `wr s <idx> v` (`t[idx] = v`, then
+    all cells), `it s` (`iter`), `w s` (`Writable` bytes); one observation per op, joined by `;`.  `M` = `runModel`,
+    `S` = `runSpec` (`Props/C19.lean: hist_spec`).
 -/
 open Rlib Rlib.Tensor
 
@@ -191,7 +196,84 @@ def handleRt (ty : String) (dims : List Nat) (data : List String) : String :=
         | .ok (u, rest) => s!"eq={showBool (eq u t)} data={showList u.data} eof={showBool rest.isEmpty}"
     answer m s!"eq=true data={showList canon} eof=true"
 
+/-! ### histories -/
+
+def parseHOp (D : Nat) (toks : List String) : Option HOp :=
+  let slot (s : String) : Option Nat := match s.toNat? with
+    | some k => if k < 4 then some k else none
+    | none => none
+  let lst (s : String) : Option (List Nat) := match parseNatsComma? s with
+    | some l => if l.length = D then some l else none
+    | none => none
+  match toks with
+  | ["mk", s, d, st] =>
+    match slot s, lst d, st.toInt? with
+    | some s, some d, some st =>
+      if d.all (· > 0) ∧ prod d > 100000 then none
+      else if st < -1000000000000 ∨ st > 1000000000000 then none
+      else some (.mk s d st)
+    | _, _, _ => none
+  | ["cl", s, r] => match slot s, slot r with
+    | some s, some r => some (.cl s r)
+    | _, _ => none
+  | ["cf", s, r] => match slot s, slot r with
+    | some s, some r => if s = r then none else some (.cf s r)
+    | _, _ => none
+  | ["eq", s, r] => match slot s, slot r with
+    | some s, some r => some (.eq s r)
+    | _, _ => none
+  | ["dims", s] => (slot s).map .dims
+  | ["dim", s, i] => match slot s, i.toNat? with
+    | some s, some i => some (.dim s i)
+    | _, _ => none
+  | ["get", s, i] => match slot s, lst i with
+    | some s, some i => some (.get s i)
+    | _, _ => none
+  | ["rd", s, i] => match slot s, lst i with
+    | some s, some i => some (.rd s i)
+    | _, _ => none
+  | ["wr", s, i, v] => match slot s, lst i, v.toInt? with
+    | some s, some i, some v => if v < -9223372036854775808 ∨ v > 9223372036854775807 then none else some (.wr s i v)
+    | _, _, _ => none
+  | ["it", s] => (slot s).map .it
+  | ["w", s] => (slot s).map .w
+  | _ => none
+
+def showObs (raw : Bool) : Obs → String
+  | .done => "ok"
+  | .bool b => showBool b
+  | .nat n => toString n
+  | .nats l => showNats l
+  | .int i => toString i
+  | .ints l => showInts l
+  | .pieces ps => escape (renderPieces (fun (i : Int) => (toString i).toList) ps)
+  | .panic (some e) => if raw then showP e else (if e = .fuel then "fuel" else "panic")
+  | .panic none => "panic"
+  | .invalid => "INVALID"
+
+def handleHist (hdr : String) (ops : List String) : String :=
+  match tokens hdr with
+  | ["h", d] =>
+    match d.toNat? with
+    | none => "M INVALID | V INVALID | S any"
+    | some D =>
+      if D > 4 then "M INVALID | V INVALID | S any" else
+      match ops.mapM (fun o => parseHOp D (tokens o)) with
+      | none => "M INVALID | V INVALID | S any"
+      | some hops =>
+        let m := runModel hops
+        let s := runSpec hops
+        if m.any (· == .invalid) || s.any (· == .invalid) then "M INVALID | V INVALID | S any" else
+        answer3 (";".intercalate (m.map (showObs true))) (";".intercalate (m.map (showObs false)))
+          (";".intercalate (s.map (showObs false)))
+  | _ => "M INVALID | V INVALID | S any"
+
 def handle (line : String) : String :=
+  if (tokens line).head? = some "h" then
+    match splitOps line with
+    | hdr :: ops => handleHist hdr ops
+    | [] => badLine line
+  else
   match tokens line with
   | ["get", d, i] =>
     match parseNatsComma? d, parseNatsComma? i with
